@@ -1,6 +1,6 @@
 import LJT.Proofs.Nbits
 import LJT.Proofs.Huff
-import LJT.Proofs.HuffOpt9
+import LJT.Proofs.HuffOpt11
 /-!
 # C19 - Generated Huffman tables are always valid, complete prefix codes
 
@@ -125,6 +125,26 @@ theorem gen_optimal_pseudo_symbol_deepest (freq0 : List Nat) (hlen : freq0.lengt
     (∀ c ∈ genCs freq0, c ≤ (genCs freq0).getD (nzReal freq0).length 0) ∧
     (1 ≤ (nzReal freq0).length → ∀ c ∈ genCs freq0, 1 ≤ c) :=
   (genBits_ok freq0 hlen htot hno).2
+
+
+open LJT.Huff in
+/-- **The optimal-table generator, symbol list** (`huffval[]`).  Unless the function leaves through
+`JERR_HUFF_CLEN_OVERFLOW`, the list it returns has one entry per symbol with a non-zero frequency, is a
+rearrangement (`Perm`) of exactly those symbols - none missing, none twice, no hole left by the skipped
+pseudo-symbol - and is ordered by code length: the `k`-th such symbol (ascending symbol order) stands at
+position `pos cs k`, and whenever its Huffman code length `codesize[k]` is smaller than that of the `k'`-th
+symbol it stands before it.  Together with `gen_optimal_table_code_lengths` (`bits[]` sorted ascending by
+construction of Figure C.1): symbols are listed in order of non-decreasing code length. -/
+theorem gen_optimal_table_symbol_list (freq0 : List Nat) (hlen : freq0.length ≤ 257)
+    (htot : ((List.range 256).map (freq0.getD · 0)).sum < 1000000000) :
+    genOptimalTable freq0 = .clenOverflow ∨
+    ∃ t, genOptimalTable freq0 = .ok t ∧ t.vals.length = (nzReal freq0).length ∧
+      t.vals.Perm (nzReal freq0) ∧
+      (∀ k, k < (nzReal freq0).length → pos (genCs freq0) k < (nzReal freq0).length ∧
+        t.vals.getD (pos (genCs freq0) k) 0 = (nzReal freq0).getD k 0) ∧
+      (∀ k k', k < (nzReal freq0).length → k' < (nzReal freq0).length →
+        (genCs freq0).getD k 0 < (genCs freq0).getD k' 0 → pos (genCs freq0) k < pos (genCs freq0) k') :=
+  genOptimalTable_vals freq0 hlen htot
 
 -- non-vacuity: a histogram with a tie (the counts 1, 1) that meets the hypotheses; the kernel evaluates the model
 open LJT.Huff in
